@@ -33,6 +33,7 @@ MIN_NONTRIVIAL_FRACTION = 0.15
 RULE += " Added after the seeded rounds: " + 'Also generated: values of the wrong JSON type for their field (bool for str, number for bool, ...; an enumerated single-field table as well), compact separators, numeric strings with thousands separators, and earlier folds (valid and invalid) on the same validator.'
 RULE += " Histories may read or reset the validator's statistics between folds (get_statistics / reset_statistics; an enumerated table over 2 schemas x 6 wrappers x 6 strategy orders x 2 call lists): fold and fold_enhanced must keep agreeing."
 RULE += ' Strings contain characters JSON writes as escapes (astral, BMP, control, unpaired surrogates) and a writer style emits non-ASCII as \\\\uXXXX escapes.'
+RULE += " Round 7: `deep` cases nest 150..60000 levels of brackets / objects (open, balanced, as a field value, before or after a clean object, fenced): beyond the decoder's recursion limit, where its error is no longer a ValueError."
 
 TYPES = ["int", "float", "str", "bool", "list_int", "list_str", "opt_int", "opt_str", "nested"]
 STRS = ["plain", "None of the above", "True story", "it's", 'a "quoted" word', "{brace}", "[1,2]", "x,}", "key: 'v'", "```", "NaN", "undefined", "",
@@ -71,6 +72,9 @@ def _case(draw):
     names = draw(st.permutations(["name", "count", "score", "flag", "items", "note", "inner"]))[:n]
     fields = [[nm, draw(st.sampled_from(TYPES))] for nm in names]
     inst = {nm: draw(_value(t)) for nm, t in fields}
+    if draw(st.integers(0, 24)) == 0:
+        return {"fields": fields, "inst": inst, "sem": [], "style": {}, "wrap": [], "trunc": None, "order": draw(_order()), "raw": None,
+                "deep": [draw(st.sampled_from(DEEP_KINDS)), draw(st.sampled_from(DEEP_N))]}
     if draw(st.integers(0, 9)) == 0:
         raw = draw(st.one_of(st.text(max_size=40), st.sampled_from(["{", "[[[[", "{}", "null", "[]", "```json\n```", "{'a': 1,}", '{"a": 1}{"a": 2}', "<json></json>"])))
         return {"fields": fields, "inst": inst, "sem": [], "style": {}, "wrap": [], "trunc": None, "order": draw(_order()), "raw": raw}
@@ -120,6 +124,11 @@ def enumerate_cases(tier):
                 yield {"fields": [["f", t]], "inst": {"f": 0}, "sem": [["mistype", "f", v]], "style": {}, "wrap": [], "trunc": None, "order": order, "raw": None}
     for case in _maint_table():
         yield case
+    for kind in DEEP_KINDS:
+        for n in DEEP_N:
+            for order in (None, [0], [1], [2], [3], [3, 2, 1, 0]):
+                yield {"fields": [["name", "str"], ["count", "int"]], "inst": {"name": "Ada", "count": 3}, "sem": [], "style": {}, "wrap": [], "trunc": None,
+                       "order": order, "raw": None, "deep": [kind, n]}
 
 
 def _maint_table():
@@ -154,7 +163,36 @@ def _model(fields):
     return _MODELS[key]
 
 
+DEEP_KINDS = ["open-brackets", "open-braces", "balanced-brackets", "balanced-objects", "field-value", "prefix-then-object", "object-then-suffix", "fenced"]
+DEEP_N = [150, 900, 1100, 3000, 60000]
+
+
+def _deep_text(case):
+    """nesting far beyond what the JSON decoder can follow (its RecursionError is not a ValueError): 'deep nesting' of the quantifier, taken seriously"""
+    kind, n = case["deep"]
+    clean = tj.write(case["inst"], {})
+    if kind == "open-brackets":
+        return "[" * n
+    if kind == "open-braces":
+        return '{"a":' * n
+    if kind == "balanced-brackets":
+        return "[" * n + "]" * n
+    if kind == "balanced-objects":
+        return '{"a":' * n + "1" + "}" * n
+    if kind == "field-value":
+        return clean[:-1] + ', "extra": ' + "[" * n + "]" * n + "}"
+    if kind == "prefix-then-object":
+        return "[" * n + " " + clean
+    if kind == "object-then-suffix":
+        return clean + " " + "{" * n
+    if kind == "fenced":
+        return "```json\n" + "[" * n + "\n```"
+    raise HarnessError("unknown deep kind %r" % (kind,))
+
+
 def _build_raw(case):
+    if case.get("deep"):
+        return _deep_text(case), True
     if case["raw"] is not None:
         return case["raw"], False
     obj = dict(case["inst"])
@@ -281,6 +319,8 @@ def judge(case):
     order = None if case["order"] is None else [strat_all[k] for k in case["order"]]
     first = (order or strat_all)[0]
     d = {"raw": raw[:400], "fields": case["fields"], "order": case["order"]}
+    if case.get("deep"):
+        d["raw"] = "<%s x %d> %s ... %s" % (case["deep"][0], case["deep"][1], raw[:60], raw[-60:])
     try:
         chap = Chaperone(strategies=order, silent=True)
         chap2 = Chaperone(strategies=order, silent=True)
@@ -350,6 +390,9 @@ def judge(case):
     if _canon(r1.structure) != _canon(r2.structure):
         out.fail("O5:fold-vs-enhanced:structure", "fold and fold_enhanced return different structures", dict(d, plain=r1.structure.model_dump()))
         return out
+    if case.get("deep"):
+        out.label("deep:%s" % case["deep"][0])
+        return out           # provenance is not judged under tens of thousands of brackets (the reference scans a bounded number of offsets)
     # O2 provenance
     got = _canon(r2.structure)
     admissible = False
